@@ -2,7 +2,7 @@
    unit, sumbool map to OCaml's own types; positive / N / Z / nat / string stay inductive. *)
 From Coq Require Import Extraction ExtrOcamlBasic.
 From Coq Require Import List NArith ZArith String.
-From DV Require Import Outcome Bits Escape BitIO Av1 Crc32 Fields Blocks Rpu Ops RpuFile Stream Order Mux Editor Export Generator XmlFormulas Splitter.
+From DV Require Import Outcome Bits Escape BitIO Av1 Crc32 Fields Blocks Rpu Ops RpuFile Stream Order Mux Editor Export Generator XmlFormulas Splitter GeneratorPrec.
 From DVgen Require Import Blocks_gen DmData_gen Switches_gen.
 
 Extraction Language OCaml.
@@ -23,5 +23,6 @@ Extraction "../driver/model.ml"
   Stream.run_stream Stream.assign_indices Stream.ps0 Stream.remove_hdr10plus Stream.parse_sei_rbsp
   RpuFile.parse_rpu_file RpuFile.write_rpu_file
   Splitter.split_whole Splitter.parse_nalus Splitter.read_file
+  GeneratorPrec.uniq_check
   Ops.convert_with_mode Ops.mode_of_u8 Ops.mode_of_cli Ops.set_modified
   N.add N.mul N.div N.modulo N.of_nat N.to_nat Z.of_N Z.to_N Z.opp N.eqb.
